@@ -2024,10 +2024,16 @@ class Selector(SelectorBase, _SignatureSelector):
             self.names = Undefined
             self._objects = objects
         else:
-            self.names = {}
-            # never store a proxy (e.g. handed back by `p.objects += [...]`)
-            # as the underlying list: it would be a proxy of itself
-            self._objects = list(objects) if isinstance(objects, ListProxy) else objects
+            names = {}
+            if isinstance(objects, ListProxy):
+                # never store a proxy (e.g. handed back by `p.objects += [...]`)
+                # as the underlying list: it would be a proxy of itself - and
+                # the objects it lists keep the names they are known by
+                known = objects._parameter.names or {}
+                objects = list(objects)
+                names = {k: v for k, v in known.items() if any(v is o for o in objects)}
+            self.names = names
+            self._objects = objects
 
     # Note that if the list of objects is changed, the current value for
     # this parameter in existing POs could be outside of the new range.
